@@ -12,6 +12,11 @@ a tolerance test), nrm (np.linalg.norm of a flat vector).  Vector vocabulary: co
 A `raise` inside the tangent selection becomes `None`; every function returns an `option`.
 Any statement, call, attribute or shape outside the whitelisted vocabulary raises Untranslatable
 (exit status 3).
+
+The functions that coq/C13/Model.v models BY HAND (partition, _max_atom_distance_between_images,
+_interpolated_species, derivative) are pinned structurally: see PINNED below.  A change to any of
+them (e.g. an extra exit from partition's while loop) also ends in exit status 3, after the
+generated file has been written.
 """
 import ast
 import hashlib
@@ -371,6 +376,98 @@ def translate_increment(f):
     return pre, skip_test, formula, [n for n, _ in lets]
 
 
+# ------------------------------------------------------------------------------------------------
+# Hand-modelled functions (coq/C13/Model.v): their source is PINNED.  After removing docstrings and
+# logger calls the function must unparse to exactly the text below; any other statement, exit from
+# a loop (break / return / raise), changed condition, bound or argument aborts with exit status 3.
+PINNED = {
+    "partition": """def partition(self, max_delta: Distance, distance_idxs: Optional[Sequence[int]]=None) -> None:
+    assert len(self.images) > 1
+    _list = []
+    for i, left_image in enumerate(self.images[:-1]):
+        right_image = self.images[i + 1]
+        n = 2
+        sub_neb = NEB.from_end_points(left_image, right_image, num=n)
+        while sub_neb._max_atom_distance_between_images(distance_idxs) > max_delta:
+            try:
+                sub_neb = NEB.from_end_points(left_image, right_image, num=n)
+            except RuntimeError:
+                pass
+            n += 1
+        for image in sub_neb.images[:-1]:
+            _list.append(image)
+    _list.append(self.images[-1])
+    self.images.clear()
+    for image in _list:
+        self.images.append_species(image)
+    return None""",
+    "_max_atom_distance_between_images": """def _max_atom_distance_between_images(self, idxs: Optional[Sequence[int]]=None) -> Distance:
+    if idxs is None:
+        idxs = np.arange(self.images[0].n_atoms)
+    else:
+        idxs = np.array(idxs)
+    overall_max_distance = -np.inf
+    for k in range(len(self.images) - 1):
+        x_i = self.images[k].coordinates
+        x_j = self.images[k + 1].coordinates
+        max_distance = np.max(np.linalg.norm(x_i - x_j, axis=1)[idxs])
+        if max_distance > overall_max_distance:
+            overall_max_distance = max_distance
+    return overall_max_distance""",
+    "_interpolated_species": """@staticmethod
+def _interpolated_species(initial: Species, final: Species, n: int) -> List[Species]:
+    if n < 2:
+        raise RuntimeError('Cannot interpolated 2 images to <2')
+    if n == 2:
+        return [initial.copy(), final.copy()]
+    intermediate_species = []
+    for i in range(1, n - 1):
+        species: Species = initial.copy()
+        for j, atom in enumerate(species.atoms):
+            shift = final.atoms[j].coord - atom.coord
+            atom.translate(vec=shift * (i / (n - 1)))
+        intermediate_species.append(species)
+    return [initial.copy()] + intermediate_species + [final.copy()]""",
+    "derivative": """def derivative(flat_coords, images, method, n_cores, plot_energies):
+    forces = np.zeros(shape=images[0].gradient.shape)
+    for i in range(1, len(images) - 1):
+        force = images[i].get_force(im_l=images[i - 1], im_r=images[i + 1])
+        forces = np.append(forces, force)
+    forces = np.append(forces, np.zeros(shape=images[-1].gradient.shape))
+    return -forces""",
+}
+
+
+class _Strip(ast.NodeTransformer):
+    """remove docstrings and logger calls (an emptied block becomes `pass`)"""
+    def generic_visit(self, node):
+        super().generic_visit(node)
+        for fld in ("body", "orelse", "finalbody"):
+            b = getattr(node, fld, None)
+            if isinstance(b, list) and b and all(isinstance(x, ast.stmt) for x in b):
+                nb = [x for x in b if not is_log(x) and not is_docstring(x)]
+                setattr(node, fld, nb or [ast.Pass()])
+        return node
+
+
+def pinned_shape_changes(osrc):
+    """-> list of messages for hand-modelled functions whose normalised source differs from PINNED."""
+    tree = ast.parse(osrc)
+    msgs = []
+    for name, want in PINNED.items():
+        fs = [n for n in ast.walk(tree) if isinstance(n, ast.FunctionDef) and n.name == name]
+        if len(fs) != 1:
+            msgs.append(f"{name}: found {len(fs)} definitions")
+            continue
+        got = ast.unparse(ast.fix_missing_locations(_Strip().visit(fs[0])))
+        if got != want:
+            gl, wl = got.split("\n"), want.split("\n")
+            k = next((i for i, (a, b) in enumerate(zip(gl, wl)) if a != b), min(len(gl), len(wl)))
+            msgs.append(f"{name} (original.py:{fs[0].lineno}): line {k + 1} of the normalised body is "
+                        f"`{(gl[k] if k < len(gl) else '<end>').strip()}`, the modelled code has `{(wl[k] if k < len(wl) else '<end>').strip()}`")
+    return msgs
+
+
 PRELUDE = """(* GENERATED by /verif/tr/translate_c13.py from autode/neb/original.py and autode/neb/ci.py
    -- do not edit.  source sha256 = %(sha)s
    spans: %(spans)s *)
@@ -476,7 +573,12 @@ def main():
     if old != txt:
         with open(OUT, "w") as fh:
             fh.write(txt)
-    return {"sha256": sha, "spans": where, "increment_lets": let_names}
+    # the generated file is written first (the translated functions are fine); a changed hand-modelled
+    # function still aborts the run below
+    changed = pinned_shape_changes(osrc)
+    if changed:
+        raise Untranslatable("pinned shape of a hand-modelled function changed: " + " ; ".join(changed))
+    return {"sha256": sha, "spans": where, "increment_lets": let_names, "pinned": sorted(PINNED)}
 
 
 if __name__ == "__main__":
